@@ -1145,6 +1145,7 @@ def install(ip):
     e["socket.AF_INET"] = 2
     e["warnings.warn"] = B("warn", b_warn)
     e["textwrap.wrap"] = B("wrap", b_wrap)
+    e["re.match"] = B("re.match", b_re_match)
     e["logging.getLogger"] = B("getLogger", b_getLogger)
     for lname, lv in (("DEBUG", 10), ("INFO", 20), ("WARNING", 30), ("ERROR", 40), ("CRITICAL", 50)):
         e["logging." + lname] = lv
